@@ -10,7 +10,7 @@ import time
 import tlc
 from drivers import realproc as rp
 
-PHASES = ["idle", "head_partial", "head_partial_late", "app_running", "resp_partial", "keepalive_idle"]
+PHASES = ["idle", "head_partial", "head_partial_late", "app_running", "resp_partial", "keepalive_idle", "second_partial"]
 
 
 class Client(threading.Thread):
@@ -20,7 +20,7 @@ class Client(threading.Thread):
         self.graceful = graceful
         self.ready = threading.Event()
         self.outcome = "nothing"
-        self.started = phase in ("head_partial", "head_partial_late", "app_running", "resp_partial")
+        self.started = phase in ("head_partial", "head_partial_late", "app_running", "resp_partial", "second_partial")
         self.err = None
 
     def path(self):
@@ -64,6 +64,20 @@ class Client(threading.Thread):
                 s.sendall(b"st: h\r\nConnection: close\r\n\r\n")
                 st, body, info = rp.read_response(s)
                 self.outcome = "complete" if (st == 200 and info["complete"]) else self.classify(info, body)
+                return
+            if self.phase == "second_partial":
+                # the head of a second request on the same connection is partly there while the application works on the
+                # first one; its rest arrives 0.7 s after the signal: both are answered
+                s.sendall(("GET %s HTTP/1.1\r\nHost: h\r\n\r\nGET /pid HTTP/1.1\r\nHo" % self.path()).encode())
+                time.sleep(0.3)
+                self.ready.set()
+                self.go.wait()
+                st, body, info = rp.read_response(s)
+                first = st == 200 and info["complete"]
+                time.sleep(0.7)
+                s.sendall(b"st: h\r\nConnection: close\r\n\r\n")
+                st2, body2, info2 = rp.read_response(s)
+                self.outcome = "complete" if (first and st2 == 200 and info2["complete"]) else self.classify(info2 if first else info, body2 if first else body)
                 return
             req = ("GET %s HTTP/1.1\r\nHost: h\r\nConnection: close\r\n\r\n" % self.path()).encode()
             s.sendall(req)
@@ -126,8 +140,12 @@ def run_shutdown(wk, sig, phases, appfin="within", graceful=3, bind="tcp", slack
     threads = max(2, len(phases)) if wk == "gthread" else None
     # "tcp2": a second listener that stays idle while the clients use the first one
     extra = ["-b", "127.0.0.1:%d" % rp.free_port()] if bind == "tcp2" else []
-    s = rp.Server(wk, workers=nworkers, threads=threads, bind="tcp" if bind == "tcp2" else bind, pidfile=True,
+    s = rp.Server(wk, workers=nworkers, threads=threads, bind="tcp" if bind in ("tcp2", "tcpunix") else bind, pidfile=True,
                   args=["--graceful-timeout", str(graceful), "--keep-alive", "5", "--timeout", str(timeout)] + extra + list(server_args), name="c04")
+    if bind == "tcpunix":
+        # a TCP listener first, a unix-socket listener second: the clients use the first, the file of the second must go
+        s.sockpath = os.path.join(s.dir, "second.sock")
+        s.cmd[-1:-1] = ["-b", "unix:" + s.sockpath]
     try:
         s.start()
         wpids = s.wait_booted(nworkers)
@@ -250,6 +268,8 @@ def plan_for(ctx):
                 ("eventlet", "TERM", ["app_running", "app_running", "idle"], "within", "tcp", (), 3, 60, ("--worker-connections", "2")),
                 # --reload: the workers run a file-watching thread besides their main loop
                 ("sync", "QUIT", ["idle"], "within", "tcp", (), 3, 60, ("--reload",)),
+                ("gthread", "TERM", ["app_running"], "within", "tcpunix"),
+                ("gevent", "TERM", ["second_partial", "app_running"], "within", "tcp"),
                 ("gthread", "TERM", ["app_running"], "within", "tcp", (), 3, 60, ("--reload",))]
     plan = []
     for wk in ("sync", "gthread", "gevent", "eventlet"):
@@ -269,10 +289,13 @@ def plan_for(ctx):
         plan.append((wk, "TERM", ["app_running", "idle"], "within", "tcp", (), 3, 60, ("--reuse-port",)))
         plan.append((wk, "INT", ["app_running"], "never", "tcp", (), 3, 60, ("--reuse-port",)))
         if wk in ("gevent", "eventlet"):
+            plan.append((wk, "TERM", ["second_partial", "app_running"], "within", "unix"))
             # (the threaded worker with all its connection slots taken does not poll its connections at all - the recorded
             # finding of C13 - so the requests of this scenario would never start)
             plan.append((wk, "TERM", ["app_running", "app_running", "idle"], "within", "tcp", (), 3, 60, ("--worker-connections", "2")))
         plan.append((wk, "QUIT", ["idle"], "within", "tcp", (), 3, 60, ("--reload",)))
+        plan.append((wk, "TERM", ["app_running", "idle"], "within", "tcpunix"))
+        plan.append((wk, "INT", ["idle"], "within", "tcpunix"))
         plan.append((wk, "TERM", ["app_running"], "within", "tcp", (), 3, 60, ("--reload",)))
     return plan
 
